@@ -65,12 +65,13 @@ type Scenario struct {
 	DstPrefillSeed uint64   `json:"dst_prefill_seed,omitempty"`
 	LstKind        string   `json:"lst_kind,omitempty"` // ok | parent_missing
 	Uid            int      `json:"uid"`
-	Env            []string `json:"env,omitempty"`    // extra environment of the command (locale, TZ, ...)
-	Stdout         string   `json:"stdout,omitempty"` // "" (pipe, captured) | closed | devfull
-	Stdin          string   `json:"stdin,omitempty"`  // "" (/dev/null) | closed
-	Cwd            string   `json:"cwd,omitempty"`    // "" (the world directory) | root | readonly (a directory the user cannot write; paths are absolute then)
-	DstFd          string   `json:"dst_fd,omitempty"` // "" | devfd | procfd: the output is named /dev/fd/7 (/proc/self/fd/7), descriptor 7 being open on the destination file
-	Fs             string   `json:"fs,omitempty"`     // file system mounted on the output directory: "" (the scratch tmpfs) | ramfs (statfs reports no blocks at all) | tmpfs_small | tmpfs_full (no free block: real ENOSPC on write) | tmpfs_noinodes (no free inode: real ENOSPC on create)
+	Env            []string `json:"env,omitempty"`     // extra environment of the command (locale, TZ, ...)
+	Stdout         string   `json:"stdout,omitempty"`  // "" (pipe, captured) | closed | devfull
+	Stdin          string   `json:"stdin,omitempty"`   // "" (/dev/null) | closed
+	Cwd            string   `json:"cwd,omitempty"`     // "" (the world directory) | root | readonly (a directory the user cannot write; paths are absolute then)
+	DstFd          string   `json:"dst_fd,omitempty"`  // "" | devfd | procfd: the output is named /dev/fd/7 (/proc/self/fd/7), descriptor 7 being open on the destination file
+	Clutter        uint64   `json:"clutter,omitempty"` // != 0: names next to the output that helpers like to use (out~, out.bak, out.tmp, out.part, out.lock, ...) already exist as directories or read-only files
+	Fs             string   `json:"fs,omitempty"`      // file system mounted on the output directory: "" (the scratch tmpfs) | ramfs (statfs reports no blocks at all) | tmpfs_small | tmpfs_full (no free block: real ENOSPC on write) | tmpfs_noinodes (no free inode: real ENOSPC on create)
 	fsActive       bool     // the file system of this run is really mounted (set by execute)
 	Argv0          string   `json:"argv0,omitempty"`      // invoke the command through a symlink of this name
 	ArgPrefix      string   `json:"arg_prefix,omitempty"` // switches in front of the file arguments that leave their meaning unchanged: "--" | "-d=false" | "-d=false --" | "--d=false"
@@ -662,6 +663,23 @@ func (s *Scenario) buildWorld(W string, src []byte, image []byte) (*worldPaths, 
 	if s.SrcKind == "same_as_dst" {
 		if s.DstKind != "absent" && s.DstKind != "" {
 			panic(modelErr("same_as_dst needs dst kind absent"))
+		}
+	}
+	if s.Clutter != 0 && dstAbs != "/dev/null" && dstAbs != "/dev/full" {
+		if st, err := os.Stat(filepath.Dir(dstAbs)); err == nil && st.IsDir() {
+			base := filepath.Base(dstAbs)
+			noext := strings.TrimSuffix(base, filepath.Ext(base))
+			for i, n := range []string{base + "~", base + ".bak", base + ".tmp", base + ".part", base + ".lock", base + ".old", base + ".new", base + ".orig", "." + base + ".swp", noext + ".lst", noext + ".map", "." + base + ".tmp", "#" + base + "#"} {
+				p := filepath.Join(filepath.Dir(dstAbs), n)
+				switch (s.Clutter >> (2 * uint(i))) & 3 {
+				case 0:
+					os.Mkdir(p, 0555)
+				case 1:
+					os.WriteFile(p, []byte("do not touch\n"), 0444)
+				case 2:
+					os.Symlink("/nonexistent/target", p)
+				}
+			}
 		}
 	}
 	if s.DstFd != "" {
